@@ -255,7 +255,7 @@ def ak_execute(case, stats):
 
 def large_enumerate(tier, shard, nshards):
     def gen():
-        for size in (65536 + 9, 131072 + 9, 300000):
+        for size in (65536 + 9, 131072 + 9, 300000, 1048576):
             for needle in (b"\x00\x01\x00\x01\x00\x02\x00", b"\xff\xff\xff", b"Z"):
                 yield {"size": size, "needle": needle}
 
